@@ -47,17 +47,46 @@ def strip_comments(src):
     return "".join(out)
 
 
-def forbidden_tokens():
+def import_closure(modules):
+    """Dashu.* modules reachable through `import` lines from the given modules"""
+    seen, todo = set(), list(modules)
+    while todo:
+        m = todo.pop()
+        if m in seen or not (m.startswith("Dashu.") or m.startswith("Mains.")):
+            continue
+        path = os.path.join(LEAN, *m.split(".")) + ".lean"
+        if not os.path.exists(path):
+            continue
+        seen.add(m)
+        for line in open(path):
+            mm = re.match(r"\s*(?:public\s+)?import\s+([A-Za-z0-9_.]+)", line)
+            if mm:
+                todo.append(mm.group(1))
+    return seen
+
+
+def main_module(group):
+    """root module of the `drive_<group>` executable, from lakefile.toml"""
+    txt = open(os.path.join(LEAN, "lakefile.toml")).read()
+    m = re.search(r'name\s*=\s*"drive_%s"\s*\n\s*root\s*=\s*"([^"]+)"' % re.escape(group), txt)
+    return m.group(1) if m else "Mains." + group.capitalize()
+
+
+def forbidden_tokens(modules=None):
+    """scan for sorry/admit/axiom/native_decide/… in the import closure of `modules`
+    (all of lean/Dashu when None); comments and string literals are ignored"""
     hits = []
-    for d, _, fs in os.walk(os.path.join(LEAN, "Dashu")):
-        for f in fs:
-            if f.endswith(".lean"):
-                p = os.path.join(d, f)
-                txt = strip_comments(open(p).read())
-                # string literals may mention the words (e.g. in audit messages); drop them
-                txt = re.sub(r'"(\\.|[^"\\])*"', '""', txt)
-                for m in FORBIDDEN.finditer(txt):
-                    hits.append((os.path.relpath(p, LEAN), m.group(0).strip()))
+    if modules is None:
+        files = []
+        for d, _, fs in os.walk(os.path.join(LEAN, "Dashu")):
+            files += [os.path.join(d, f) for f in fs if f.endswith(".lean")]
+    else:
+        files = [os.path.join(LEAN, *m.split(".")) + ".lean" for m in sorted(import_closure(modules))]
+    for p in files:
+        txt = strip_comments(open(p).read())
+        txt = re.sub(r'"(\\.|[^"\\])*"', '""', txt)
+        for m in FORBIDDEN.finditer(txt):
+            hits.append((os.path.relpath(p, LEAN), m.group(0).strip()))
     return hits
 
 
@@ -157,13 +186,22 @@ def write_cases(path, cases, W=64):
             f.write(c.line(i) + "\n")
 
 
+ANNOT = {}            # histogram of annotation keys seen by parse_out (e.g. `cert-undecided`); reported in the evidence
+_ANNOT_LOCK = __import__("threading").Lock()
+
+
 def parse_out(text):
     res = {}
     for line in text.splitlines():
         sp = line.split(" ", 1)
         if len(sp) == 2 and sp[0].isdigit():
             # a trailing ` #key=value…` annotation (e.g. number of call forms evaluated) is not compared
-            res[int(sp[0])] = sp[1].split(" #", 1)[0].strip()
+            parts = sp[1].split(" #", 1)
+            res[int(sp[0])] = parts[0].strip()
+            if len(parts) == 2:
+                key = re.split(r"[= ]", parts[1], maxsplit=1)[0]
+                with _ANNOT_LOCK:
+                    ANNOT[key] = ANNOT.get(key, 0) + 1
     return res
 
 
